@@ -685,6 +685,7 @@ def _call(case, order):
 
 
 def run(case):
+  case = case['case'] if 'kind' not in case and 'case' in case else case      # corpus entries wrap the case
   if case['kind'] == 'flagbatch':
     from lib import flagrun
     obs, err = flagrun.run_cases('c07', case['cases'], {case['flag']: case['value']})
@@ -742,6 +743,7 @@ def _asdt(case, v):
 
 
 def oracle(case, obs):
+  case = case['case'] if 'kind' not in case and 'case' in case else case      # corpus entries wrap the case
   if case['kind'] == 'flagbatch':
     if obs['sub'] is None:
       return [('flag-subprocess-failed', f'{case["flag"]}={case["value"]}: {obs["sub_error"]}')]
@@ -870,6 +872,7 @@ def _oracle(case, obs):
 # ---------------------------------------------------------------------------
 
 def encode(case, obs):
+  case = case['case'] if 'kind' not in case and 'case' in case else case      # corpus entries wrap the case
   if case['kind'] in ('l2', 'size', 'zeros_like', 'pipeline', 'flagbatch'):
     return None
   _qtree = lambda t: '[' + '; '.join(fw.qlit(_asdt(case, v)) for v in t) + ']'
@@ -905,6 +908,7 @@ def encode(case, obs):
 
 
 def nontrivial(case, obs):
+  case = case['case'] if 'kind' not in case and 'case' in case else case      # corpus entries wrap the case
   if case['kind'] == 'flagbatch':
     return False
   if case['kind'] == 'pipeline':
@@ -917,6 +921,7 @@ def nontrivial(case, obs):
 
 
 def describe(case, obs):
+  case = case['case'] if 'kind' not in case and 'case' in case else case      # corpus entries wrap the case
   if case['kind'] == 'flagbatch':
     return {'kind': 'flagbatch', 'flag': case['flag'], 'sub_cases': len(case['cases'])}
   d = {'kind': case['kind'], 'clients': len(case['trees']), 'input': case['input'], 'exact': case['tol'] == 0,
@@ -940,6 +945,7 @@ def describe(case, obs):
 
 
 def shrink(case):
+  case = case['case'] if 'kind' not in case and 'case' in case else case      # corpus entries wrap the case
   if case['kind'] == 'flagbatch':
     return
   n = len(case['trees'])
